@@ -144,10 +144,14 @@ func Digest(r io.Reader, hashFunc crypto.Hash) (*CabinetDigest, error) {
 	}
 	if cab.SignatureHeader != nil {
 		// read old signature for verification purposes
-		cab.Signature = make([]byte, cab.SignatureHeader.SignatureSize)
-		if _, err := io.ReadFull(r, cab.Signature); err != nil {
+		sigSize := int64(cab.SignatureHeader.SignatureSize)
+		sig, err := io.ReadAll(io.LimitReader(r, sigSize))
+		if err != nil {
 			return nil, err
+		} else if int64(len(sig)) < sigSize {
+			return nil, io.ErrUnexpectedEOF
 		}
+		cab.Signature = sig
 	}
 	// ensure there is nothing after the cabinet and signature
 	if _, err := r.Read(make([]byte, 1)); err == nil {
